@@ -2,7 +2,7 @@
 strictness."""
 import ast
 
-from ..model import AnalysisError, need, call_name, const_str, unparse
+from ..model import AnalysisError, need, call_name, const_str, unparse, alpha_body, alpha_src
 from ..cfg import cfg_of, calls_at, reaching_defs
 from .common import (rules, deriv, attr_calls, cfg_node_of, is_selector_call, strip_sorters, all_funcs_of, stmt_text,
                      STATUS_METHODS)
@@ -139,7 +139,7 @@ def r15_tie_funnel(ctx):
     # byTieOrder sorts ascending by tieOrder
     bto = repo.func('droop.candidates.Candidates.byTieOrder')
     rets = [n for n in bto.own_nodes() if isinstance(n, ast.Return)]
-    ok = len(rets) == 1 and unparse(rets[0].value) == 'sorted(candidates, key=lambda c: c.tieOrder, reverse=reverse)' \
+    ok = len(rets) == 1 and alpha_body(bto.node) == alpha_src('def f(self, candidates, reverse=False):\n return sorted(candidates, key=lambda c: c.tieOrder, reverse=reverse)') \
         and bto.node.args.defaults and isinstance(bto.node.args.defaults[-1], ast.Constant) and bto.node.args.defaults[-1].value is False
     ctx.check(ok, R, bto.node, bto, 'byTieOrder sorts by ascending tie rank', 'sorted(candidates, key=lambda c: c.tieOrder), reverse defaults to False',
               'byTieOrder no longer sorts ascending by tieOrder')
@@ -152,7 +152,10 @@ def r15_tie_funnel(ctx):
         raise AnalysisError('R15: ' + how)
     ctx.check(ok, R, tie.node, tie, 'the [tie ...] list is numbered 1,2,3,... in reading order (first listed = lowest rank)', how, how)
     pin = pt.methods['__init__']
-    ok = any(unparse(s) == 'self.tieOrder[cid] = cid' for s in ast.walk(pin.node) if isinstance(s, ast.Assign))
+    ok = any(isinstance(s, ast.Assign) and isinstance(s.targets[0], ast.Subscript) and unparse(s.targets[0].value) == 'self.tieOrder'
+             and isinstance(s.value, ast.Name) and unparse(s.targets[0].slice) == s.value.id
+             and isinstance(s.parent, ast.For) and isinstance(s.parent.target, ast.Name) and s.parent.target.id == s.value.id
+             for s in ast.walk(pin.node))
     ctx.check(ok, R, pin.node, pin, 'the default tie-break order is the ballot order', 'self.tieOrder[cid] = cid', 'default tie order changed',
               nontrivial=False)
     # (b)+(c) every breakTie
@@ -335,24 +338,60 @@ def r16_extremum_polarity(ctx):
     sc = [ri for ri in rules(ctx) if ri.short == 'scotland']
     if sc:
         bt = sc[0].helper(ctx, 'breakTie')
-        txt = {unparse(s.targets[0]): unparse(s.value) for s in ast.walk(bt.node) if isinstance(s, ast.Assign) and len(s.targets) == 1}
-        ok = txt.get('direction') == "0 if reason.find('defeat') >= 0 else -1"
-        ctx.check(ok, R, bt.node, bt, 'Scottish tie-break looks at the lowest earlier tally for a defeat and the highest for a surplus',
-                  "direction = 0 if reason.find('defeat') >= 0 else -1 (index into an ascending sort)", 'direction is `%s`' % txt.get('direction'))
-        okv = (txt.get('tiedCN') or '').startswith('[cn for cn in tiedCN if cn.vote == tiedCN[direction].vote]') or \
-            any(v == '[cn for cn in tiedCN if cn.vote == tiedCN[direction].vote]' for v in
-                [unparse(s.value) for s in ast.walk(bt.node) if isinstance(s, ast.Assign)])
-        asc = any(unparse(s.value) == 'C.byVote([cn for cn in CN if cn.cid in tiedCids])' for s in ast.walk(bt.node) if isinstance(s, ast.Assign))
-        ctx.check(okv and asc, R, bt.node, bt, 'the earlier-stage tallies are sorted ascending and filtered on the extreme tally',
-                  'tiedCN = C.byVote([...]) (ascending); keep those equal to tiedCN[direction].vote', 'prior-stage filtering changed')
-        loops = [n for n in bt.own_nodes() if isinstance(n, ast.For) and isinstance(n.iter, ast.Call) and isinstance(n.iter.func, ast.Name)
-                 and n.iter.func.id == 'range']
-        okr = len(loops) == 1 and unparse(loops[0].iter) == 'range(E.round - 1, -1, -1)'
-        ctx.check(okr, R, loops[0] if loops else bt.node, bt, 'earlier stages are scanned most recent first',
-                  'for n in range(E.round-1, -1, -1)', 'stage scan order is `%s`' % (unparse(loops[0].iter) if loops else None))
+        # compared with the reference modulo renaming of locals/parameters: the `direction` definition and the whole
+        # prior-stage loop (sort ascending, keep the extreme tally, decide when one is left)
+        tied = _tied_param(bt)
+        reason = [p_ for p_ in bt.params if p_ != tied]
+        loops = [n for n in bt.own_nodes() if isinstance(n, ast.For) and isinstance(n.iter, ast.Call)
+                 and (unparse(n.iter.func) in ('range', 'reversed'))]
+        dir_def = None
+        if loops:
+            # the index used on the sorted earlier tallies: a name defined once before the loop
+            subs = [x for x in ast.walk(loops[0]) if isinstance(x, ast.Subscript) and isinstance(x.slice, ast.Name) and isinstance(x.ctx, ast.Load)
+                    and isinstance(x.parent, ast.Attribute) and x.parent.attr == 'vote']
+            if len(subs) == 1:
+                dn = subs[0].slice.id
+                defs = [a_ for a_ in bt.own_nodes() if isinstance(a_, ast.Assign) and len(a_.targets) == 1 and isinstance(a_.targets[0], ast.Name)
+                        and a_.targets[0].id == dn]
+                dir_def = defs[0] if len(defs) == 1 else None
+        ref = """
+def breakTie(tied, reason=None):
+    direction = 0 if reason.find('defeat') >= 0 else -1
+    for n in range(E.round - 1, -1, -1):
+        CN = E.rounds[n]
+        tiedCN = C.byVote([cn for cn in CN if cn.cid in tiedCids])
+        tiedCN = [cn for cn in tiedCN if cn.vote == tiedCN[direction].vote]
+        if len(tiedCN) == 1:
+            cn0 = tiedCN[0]
+            E.logAction('tie', 'Break tie by prior stage (%s): [%s] -> %s' % (reason, names, cn0.name))
+            for c in tied:
+                if c.cid == cn0.cid:
+                    return c
+"""
+        import textwrap as _tw
+        from ..model import alpha_texts, func_chain
+        outer = ast.parse('def g():\n tiedCids = names = E = C = 0').body[0]   # what the fragment reads from its surroundings
+
+        def _same(refsrc):
+            rt = ast.parse(_tw.dedent(refsrc)).body[0]
+            return alpha_texts([dir_def, loops[0]], func_chain(bt)) == alpha_texts(rt.body, [rt, outer])
+        ok_all = False
+        if dir_def is not None and len(loops) == 1:
+            ok_all = _same(ref) or _same(ref.replace('range(E.round - 1, -1, -1)', 'reversed(range(E.round))'))
+        ctx.check(ok_all, R, loops[0] if loops else bt.node, bt,
+                  'Scottish tie-break: earlier stages are scanned most recent first; at each, the tied candidates\' tallies of that stage are sorted '
+                  'ascending and those with the lowest (defeat) / highest (surplus) tally kept; a single survivor decides',
+                  "direction = 0 if reason.find('defeat') >= 0 else -1; for n in range(E.round-1, -1, -1): tiedCN = C.byVote(...); keep == tiedCN[direction].vote "
+                  '(equal to the reference definition up to renaming)',
+                  'the prior-stage search of breakTie differs from the reference procedure: `%s; %s`'
+                  % (stmt_text(dir_def) if dir_def is not None else '<no single definition of the index>', stmt_text(loops[0]) if loops else '<no stage loop>'))
         # E.rounds is appended once per 'round' action (record.py)
         act = ctx.repo.func('droop.record.ElectionRecord.action')
-        okc = any(isinstance(n, ast.If) and unparse(n.test) == "tag == 'round'" and any('E.rounds.append(C.copy())' == unparse(s.value) for s in n.body if isinstance(s, ast.Expr))
+        okc = any(isinstance(n, ast.If) and isinstance(n.test, ast.Compare) and len(n.test.ops) == 1 and isinstance(n.test.ops[0], ast.Eq)
+                  and isinstance(n.test.left, ast.Name) and n.test.left.id == act.params[1] and const_str(n.test.comparators[0]) == 'round'
+                  and any(isinstance(s.value, ast.Call) and ctx.canon(s.value.func, act) == 'E.rounds.append' and len(s.value.args) == 1
+                          and isinstance(s.value.args[0], ast.Call) and ctx.canon(s.value.args[0].func, act) == 'E.C.copy'
+                          for s in n.body if isinstance(s, ast.Expr))
                   for n in act.own_nodes())
         ctx.check(okc, R, act.node, act, 'a copy of the candidates is saved at every new round (the stages the Scottish rule looks back at)',
                   "if tag == 'round': E.rounds.append(C.copy())", 'per-round candidate snapshots are no longer saved')
